@@ -18,6 +18,7 @@ pub mod c12;
 pub mod c14;
 pub mod c15;
 pub mod c17;
+pub mod c18;
 pub mod c19;
 pub mod c20;
 
@@ -38,6 +39,7 @@ const TABLE: &[(&str, RunFn, ReplayFn)] = &[
     ("C14", c14::run, c14::replay),
     ("C15", c15::run, c15::replay),
     ("C17", c17::run, c17::replay),
+    ("C18", c18::run, c18::replay),
     ("C19", c19::run, c19::replay),
     ("C20", c20::run, c20::replay),
 ];
